@@ -198,6 +198,13 @@ func (c *Core) do(ctx context.Context, id Ident, a M) (any, error) {
 			return M{"dialErr": r.DialErr, "pingErr": r.PingErr, "msgLen": len(r.Msg)}, nil
 		}
 		return r, nil
+	case "grpc-dial-as":
+		b := c.GRPC()
+		if b == nil {
+			return nil, errors.New("no grpc broker")
+		}
+		ans, e := GRPCDialAs(b, uint32(Int(a, "id")), Str(a, "cred"), time.Duration(Int(a, "timeoutMs"))*time.Millisecond)
+		return M{"answered": ans, "err": e}, nil
 	case "grpc-nextid":
 		return M{"id": c.GRPC().NextId()}, nil
 	}
